@@ -68,7 +68,7 @@ NodeCmd == \E h \in Handles({"synth", "group"}) :
     \/ Do(E("setn", h, "none", 0, "", <<TS("freq"), TL(<<TI(1), TF(4)>>), TI(2), TF(8)>>, <<>>, "none", <<>>))
     \/ \E b \in Handles({"cbus"}) :
           \/ Do(E("map", h, "none", 0, "", <<TS("freq"), TO(b)>>, <<>>, "none", <<>>))
-          \/ Do(E("mapn", h, "none", 0, "", <<TS("freq"), TO(b), TI(1), TI(3)>>, <<>>, "none", <<>>))
+          \/ Do(E("mapn", h, "none", 0, "", <<TS("freq"), TO(b), TI(1), TI(0 - 1)>>, <<>>, "none", <<>>))
     \/ Do(E("fill", h, "none", 0, "", <<TS("freq"), TI(2), TF(4)>>, <<>>, "none", <<>>))
     \/ \E f \in {0, 1} : Do(E("run", h, "none", 0, "", <<>>, <<f>>, "none", <<>>))
     \/ \E r \in (IF Wide THEN {<<0, 0>>, <<1, 0>>, <<1, 16>>, <<1, 4>>} ELSE {<<0, 0>>, <<1, 4>>}) : Do(E("release", h, "none", 0, "", <<>>, r, "none", <<>>))
